@@ -54,6 +54,48 @@ class _Continue(Exception):
     pass
 
 
+def _inplace(folder: Any, cur: Any, op: ast.operator, rhs: Any) -> Any:
+    """`x op= y` on a mutable container changes the object x is bound to (every other reference sees it) - Python's
+    semantics, which an aliasing defect depends on; immutable values and instances without an in-place method fall back to
+    the binary operator (NotImplemented)"""
+    if isinstance(cur, Abstract):
+        if type(cur).__name__ == "AObj" and cur._record() is None:
+            nm = {ast.Add: "__iadd__", ast.Sub: "__isub__", ast.BitOr: "__ior__", ast.BitAnd: "__iand__", ast.BitXor: "__ixor__", ast.Mult: "__imul__"}.get(type(op))
+            m = cur._ctx_.repo.lookup_method(cur._cls_, nm) if nm else None
+            if m is not None:
+                return _BoundMethod(cur, m).call(folder, [rhs], {})
+        return NotImplemented
+    if isinstance(rhs, Abstract) and not hasattr(rhs, "__iter__"):
+        return NotImplemented
+    try:
+        if isinstance(cur, (list, bytearray)) and isinstance(op, ast.Add):
+            cur += rhs
+            return cur
+        if isinstance(cur, (list, bytearray)) and isinstance(op, ast.Mult) and isinstance(rhs, int):
+            if len(cur) * max(rhs, 0) > 1000000:
+                return NotImplemented
+            cur *= rhs
+            return cur
+        if isinstance(cur, set) and isinstance(rhs, (set, frozenset)):
+            if isinstance(op, ast.BitOr):
+                cur |= rhs
+            elif isinstance(op, ast.BitAnd):
+                cur &= rhs
+            elif isinstance(op, ast.Sub):
+                cur -= rhs
+            elif isinstance(op, ast.BitXor):
+                cur ^= rhs
+            else:
+                return NotImplemented
+            return cur
+        if isinstance(cur, dict) and isinstance(op, ast.BitOr) and isinstance(rhs, dict):
+            cur.update(rhs)
+            return cur
+    except TypeError:
+        return NotImplemented
+    return NotImplemented
+
+
 class Evaluator(Folder):
     def __init__(self, env: Optional[Dict[str, Any]] = None, repo: Optional[Repo] = None, mod: Optional[Module] = None, cls: Optional[ClassInfo] = None, hook: Optional[Callable[[ast.expr, Folder], Any]] = None, max_steps: int = 200000):
         super().__init__(env, repo, mod, cls, hook)
@@ -161,7 +203,9 @@ class Evaluator(Folder):
         elif isinstance(st, ast.AugAssign):
             cur = self.fold(ast.copy_location(_load(st.target), st))
             rhs = self.fold(st.value)
-            val = self.fold(ast.BinOp(left=_Const(cur), op=st.op, right=_Const(rhs)))
+            val = _inplace(self, cur, st.op, rhs)
+            if val is NotImplemented:
+                val = self.fold(ast.BinOp(left=_Const(cur), op=st.op, right=_Const(rhs)))
             self._assign(st.target, val)
         elif isinstance(st, ast.Expr):
             self._expr_stmt(st.value)
@@ -563,6 +607,24 @@ class AObj(Sym):
     def __hash__(self) -> int:
         r = self._record()
         return id(self) if r is None else hash(tuple(self))
+
+    def __bool__(self) -> bool:
+        # Python's rule: the class's own __bool__, else its __len__ compared with zero, else true
+        r = self._record()
+        if r is not None:
+            return len(r) > 0
+        from .fold import _CURRENT
+
+        for nm in ("__bool__", "__len__"):
+            m = self._ctx_.repo.lookup_method(self._cls_, nm)
+            if m is not None:
+                if not _CURRENT:
+                    raise Unfoldable("truth value of a %s asked outside an evaluation" % self._cls_.name)
+                v = _BoundMethod(self, m).call(_CURRENT[-1], [], {})
+                if isinstance(v, Abstract):
+                    raise Unfoldable("truth value of a %s: %s returned an abstract value" % (self._cls_.name, nm))
+                return bool(v) if nm == "__bool__" else v != 0
+        return True
 
     def __len__(self) -> int:
         r = self._record()
